@@ -144,7 +144,7 @@ def replay_leg(st, col, corrupt=None):
                         L = L.conj()
                     elif op == 'flip_charges_qconj':
                         L = L.flip_charges_qconj()
-                    elif op in ('get_qindex', 'perm', 'tests'):
+                    elif op in ('get_qindex', 'perm', 'tests', 'project_none'):
                         pass
                     else:
                         raise core.MachineryError('unknown Charges op %r' % op)
@@ -155,7 +155,7 @@ def replay_leg(st, col, corrupt=None):
                     col.note('leg_prefix_diverged')
                     raise Stop()
                 fail(op, 'exception', n, got='%s: %s' % (type(e).__name__, e), exc=type(e).__name__)
-            if op in ('get_qindex', 'perm', 'tests'):
+            if op in ('get_qindex', 'perm', 'tests', 'project_none'):
                 if not final:
                     raise core.MachineryError('query in the middle of a behaviour')
                 _leg_query(L, l, n, fail)
@@ -247,6 +247,29 @@ def _leg_query(L, l, n, fail):
             ok = (got == 'ValueError') if not sols else (got in sols)
             if not ok:
                 fail(op, name, n, got=got, exp=sols if sols else 'ValueError', sizes_all_one=ones, stop=ones)
+    elif op == 'project_none':
+        import numpy as np
+        from harness import legs as HL
+        try:
+            mq, bm, L0 = L.project(np.array(l['mask'], dtype=bool))
+            got = ([int(x) for x in mq], len(bm), HL.proj_leg(L0))
+        except Exception as e:
+            fail(op, 'zero-block:project', n, got='%s: %s' % (type(e).__name__, e), exc=type(e).__name__)
+        if got[0] != list(l['map_qind']) or got[1] != 0 or not HL.same_data(got[2], l) or int(L0.ind_len) != 0:
+            fail(op, 'zero-block:project', n, got=got, exp=tlaval.to_jsonable(l))
+        try:
+            pf = [int(x) for x in L0.perm_flat_from_perm_qind(np.zeros(0, dtype=np.intp))]
+        except Exception as e:
+            pf = type(e).__name__
+        if pf != list(l['perm_flat']):
+            fail(op, 'zero-block:perm_flat_from_perm_qind', n, got=pf, exp=list(l['perm_flat']), stop=False)
+        try:
+            perm, Ls = L0.sort(bunch=True)
+            got = ([int(x) for x in perm], [int(x) for x in Ls.get_block_sizes()])
+        except Exception as e:
+            got = type(e).__name__
+        if got != (list(l['sort_perm']), list(l['sorted_sizes'])):
+            fail(op, 'zero-block:sort', n, got=got, exp=[list(l['sort_perm']), list(l['sorted_sizes'])], stop=False)
     elif op == 'tests':
         def raises(f, *a):
             try:
@@ -289,11 +312,12 @@ def replay_pipe(st, col, corrupt=None):
     lastl = hist[-1]['l']
     fuse = [h['l'] for h in hist if h['l']['op'] == 'fuse'][-1]
 
-    def fail(clause, got=None, exp=None, **extra):
+    def fail(clause, got=None, exp=None, stop=True, **extra):
         sig = dict(kind='replay', spec='Pipe', op=lastl['op'], clause=clause, nested=nested)
         sig.update(extra)
         col.violation(sig, dict(kind='pipe', state=tlaval.to_jsonable(st), got=got, expected=exp))
-        raise Stop()
+        if stop:
+            raise Stop()
 
     ci = None
     legs = []
@@ -597,10 +621,37 @@ def _tensor_pipe(st, P, cur, ci, fuse, lastl, fail, col):
                 or pc['sizes'] != want['sizes'] or not isinstance(Bc.legs[0], LegPipe) \
                 or [int(l.qconj) for l in Bc.legs[0].legs] != [-int(r['qconj']) for r in P['legs']]:
             fail('combine_legs(conj tensor)', got=dict(leg=pc, data=Bcd.tolist()), exp=dict(leg=want, data=exp.tolist()))
+    if not nested:
+        _operator_pipe(mods, P, cur, ci, fl, effs, fmap, fail, col)
+        _flipped_leg_pipe(P, cur, A, fl, E, exp, fail, dense)
     if nested or n != 1 or fuse['qconj'] != P['legs'][0]['qconj']:
         return
     # one leg, same direction: sort_legcharge / as_completely_blocked are this pipe in disguise
     so, bu = fuse['sort'], fuse['bunch']
+    if not so and not bu:
+        # nothing requested: identity permutations, the same tensor
+        try:
+            perms, cp = A.sort_legcharge(sort=False, bunch=False)
+            ok = [[int(x) for x in q] for q in perms] == [list(range(N)), list(range(len(U)))] and np.array_equal(cp.to_ndarray(), A.to_ndarray())
+            got = [[int(x) for x in q] for q in perms]
+        except Exception as e:
+            ok, got = False, '%s: %s' % (type(e).__name__, str(e)[:200])
+        if not ok:
+            fail('sort_legcharge(False,False)', got=got, stop=False)
+    if so and not bu:
+        # the documented "perm" form: sort = [perm, False] applies the given permutation to that leg;
+        # with the inverse of the spec's map as perm the result is the tensor the spec places (exp)
+        inv = [0] * N
+        for f in range(N):
+            inv[fmap[f]] = f
+        try:
+            perms, cp = A.sort_legcharge(sort=[np.array(inv, dtype=np.intp), False], bunch=False)
+            ok = [int(x) for x in perms[0]] == inv and np.array_equal(cp.to_ndarray(), exp)
+            got = cp.to_ndarray().tolist()
+        except Exception as e:
+            ok, got = False, '%s: %s' % (type(e).__name__, str(e)[:200])
+        if not ok:
+            fail('sort_legcharge(perm)', got=got, exp=exp.tolist(), stop=False)
     if so or bu:
         try:
             perms, cp = A.sort_legcharge(sort=[so, False], bunch=[bu, False])
@@ -633,6 +684,83 @@ def _tensor_pipe(st, P, cur, ci, fuse, lastl, fail, col):
             back = Bc.split_legs(list(enc))
             if not np.array_equal(back.to_ndarray(), A.to_ndarray()):
                 fail('as_completely_blocked:split', got=back.to_ndarray().tolist())
+
+
+OP_MAXN, OP_MAXROWS = 24, 9
+
+
+def _operator_pipe(mods, P, cur, ci, fl, effs, fmap, fail, col):
+    """two pipes in one tensor (spec: OpTensor / SplitManyOK): O over ket legs and conjugated bra legs with the
+    non-positive entries OpVal; combine both sides, then split_legs with the axes in every order, by index and
+    by label, and with a cutoff below the smallest non-zero |entry|: always the original tensor."""
+    import numpy as np
+    from harness import legs as HL
+    from tenpy.linalg import np_conserved as npc
+    n = len(fl)
+    N = len(fmap)
+    if N == 0 or N > OP_MAXN or len(P['qmap']) > OP_MAXROWS:
+        col.note('operator_test_skipped_large')
+        return
+    lens = [int(l.ind_len) for l in fl]
+    O = np.zeros((N, N), dtype=np.int64)
+    for f in range(N):
+        for g in range(N):
+            if effs[fmap[f]] == effs[fmap[g]] and (f + g + 2) % 3 != 0:      # spec OpVal with 1-based f, g
+                O[f, g] = -(f * N + g + 1)
+    M = np.zeros((N, N), dtype=np.int64)
+    for f in range(N):
+        for g in range(N):
+            M[fmap[f], fmap[g]] = O[f, g]
+    ket = ['p%d' % k for k in range(n)]
+    bra = [x + '*' for x in ket]
+    try:
+        T = npc.Array.from_ndarray(O.reshape(lens + lens), fl + [l.conj() for l in fl], dtype=np.int64, labels=ket + bra)
+        C = T.combine_legs([ket, bra], pipes=[cur, cur.conj()])
+        C.test_sanity()
+    except Exception as e:
+        fail('two-pipes:combine_legs', got='%s: %s' % (type(e).__name__, str(e)[:300]), exc=type(e).__name__)
+    if not np.array_equal(C.to_ndarray(), M):
+        fail('two-pipes:combine_legs', got=C.to_ndarray().tolist(), exp=M.tolist())
+    lk, lb = C.get_leg_labels()
+    dense0 = O.reshape(lens + lens)
+    for what, axes, kw in (('index order [0,1]', [0, 1], {}), ('index order [1,0]', [1, 0], {}),
+                           ('label order ket,bra', [lk, lb], {}), ('label order bra,ket', [lb, lk], {}),
+                           ('all pipes, cutoff', None, dict(cutoff=0.5)), ('label order bra,ket, cutoff', [lb, lk], dict(cutoff=0.5))):
+        cut = 'cutoff' in kw
+        try:
+            S = C.split_legs(axes, **kw)
+            S.test_sanity()
+            Sd = S.to_ndarray()
+        except Exception as e:
+            fail('two-pipes:split_legs', got='%s: %s' % (type(e).__name__, str(e)[:300]), exc=type(e).__name__, how=what, cutoff=cut)
+        if Sd.shape != dense0.shape or not np.array_equal(Sd, dense0):
+            fail('two-pipes:split_legs', got=dict(axes=str(axes), data=Sd.reshape(N, N).tolist()), exp=O.tolist(), how=what, cutoff=cut)
+        if S.get_leg_labels() != ket + bra:
+            fail('two-pipes:split_legs:labels', got=S.get_leg_labels(), exp=ket + bra, how=what)
+        for k in range(2 * n):
+            try:
+                S.legs[k].test_equal(T.legs[k])
+            except ValueError:
+                fail('two-pipes:split_legs:legs', got=HL.proj_leg(S.legs[k]), exp=HL.proj_leg(T.legs[k]), how=what)
+    col.note('operator_tests')
+
+
+def _flipped_leg_pipe(P, cur, A, fl, E, exp, fail, dense):
+    """a given pipe is compatible with every tensor whose legs are test_equal to the pipe's legs -- also when the
+    first leg is written the other way round (flip_charges_qconj: same charges, opposite qconj and signs)"""
+    import numpy as np
+    from tenpy.linalg import np_conserved as npc
+    n = len(fl)
+    legs2 = [fl[0].flip_charges_qconj()] + fl[1:] + [E]
+    try:
+        A2 = npc.Array.from_ndarray(A.to_ndarray(), legs2, dtype=np.int64)
+        B2 = A2.combine_legs(list(range(n)), pipes=[cur])
+    except Exception as e:
+        fail('combine_legs(flipped first leg)', got='%s: %s' % (type(e).__name__, str(e)[:200]), exc=type(e).__name__, stop=False)
+        return
+    B2d = dense(B2, 'combine_legs(flipped first leg)')
+    if not np.array_equal(B2d, exp):
+        fail('combine_legs(flipped first leg)', got=B2d.tolist(), exp=exp.tolist())
 
 
 # ------------------------------------------------------------------------------------------------
@@ -762,7 +890,7 @@ CH_INV = ['ChargeInfoLaws', 'ChargePreserved', 'FlagsTruthful', 'LegValid', 'Con
 CH_PROP = ['ShortCutSound']
 P_INV = ['PipeBijection', 'FusionRule', 'OutValid', 'SortedOut', 'BunchedOut', 'BlockedOut', 'OutFlagsTruthful',
          'QMapOrdered', 'MapIsKeyRank', 'ConjKeepsContractible', 'OuterConjKeepsEffectiveCharge', 'SplitAfterCombine',
-         'NestedOK', 'ConvPost', 'ChargePreserved', 'FlagsTruthful', 'LegValid']
+         'NestedOK', 'SplitManyOK', 'ConvPost', 'ChargePreserved', 'FlagsTruthful', 'LegValid']
 P_PROP = ['PostKeeps', 'ConvKeepsPipe']
 
 CH_DEFAULT = dict(U1Win='<-WinSym', Seed=0, ModsSet='<-ModsQ0', CBlk=1, CSizes={1}, CRate=1, XBlk=1, XSizes={1}, XRate=1,
@@ -777,10 +905,10 @@ def charges_cfg(seed, **kw):
 
 
 def pipe_cfg(seed, profiles, maxpost=1, postrate=1, maxnest=0, nestrate=1, declmax=36, win='WinSym', nestmax=12, nestn=2, nestlegrate=20,
-             convrate=1):
+             convrate=1, opmax=6):
     c = dict(CH_DEFAULT)
     c.update(Seed=seed, U1Win='<-' + win, Profiles='<-' + profiles, MaxPost=maxpost, PostRate=postrate, MaxNest=maxnest,
-             NestRate=nestrate, DeclMax=declmax, NestMax=nestmax, NestN=nestn, NestLegRate=nestlegrate, ConvRate=convrate)
+             NestRate=nestrate, DeclMax=declmax, NestMax=nestmax, NestN=nestn, NestLegRate=nestlegrate, ConvRate=convrate, OpMax=opmax)
     return dict(init='PInit', next='PNext', constants=c, invariants=P_INV, properties=P_PROP, view='PView')
 
 
@@ -841,9 +969,10 @@ def canary_corrupt(ctx):
         return P
     bad = Col()
     replay_pipe(st, bad, corrupt=swap)
-    if good.viol or not bad.viol:
-        raise core.MachineryError('canary: corrupted expectation not rejected (good=%d bad=%d)' % (len(good.viol), len(bad.viol)))
-    ctx.notes['canary_corrupted_map_rejected'] = bad.viol[0][0]['clause']
+    hit = lambda c: [v for v in c.viol if v[0]['clause'] == 'map_incoming_flat']
+    if hit(good) or not hit(bad):
+        raise core.MachineryError('canary: corrupted expectation not rejected (good=%d bad=%d)' % (len(hit(good)), len(hit(bad))))
+    ctx.notes['canary_corrupted_map_rejected'] = hit(bad)[0][0]['clause']
 
 
 _PRELOADED = {}
